@@ -172,3 +172,218 @@ def role_view(func, roles):
   rv = _clone_func(func, rename_names(func.node, roles))
   rv.dropped = dropped
   return rv
+
+
+def inline_helpers(repo, func, depth=2):
+  """`func` with statement-level calls to simple repository helpers replaced
+  by the helper's body, so that a rule sees the same statements whether or
+  not a block was extracted into a private function.
+
+  Inlined: `x = helper(args)` / `helper(args)` / `return helper(args)` at
+  statement level, where `helper` is a module function or a method called
+  on self, is not `func` itself, takes its arguments positionally, and whose
+  body (docstring aside) has a single `return` as its last top-level
+  statement (or none), no nested def / yield.  Parameters bound to plain
+  names are substituted; others become `param = arg` assignments; the
+  helper's own locals get a suffix so that they cannot capture the caller's.
+  Positions of the inlined statements are those of the helper."""
+  import copy
+  if depth <= 0:
+    return func
+  base = getattr(func, 'orig', func)
+  caller_names = set(n.id for n in ast.walk(func.node)
+                     if isinstance(n, ast.Name))
+  counter = [0]
+
+  def callee_of(call):
+    f = call.func
+    if isinstance(f, ast.Attribute) and isinstance(f.value, ast.Name) and \
+            f.value.id == 'self' and base.cls is not None:
+      g = repo.resolve_method(base.cls, f.attr)
+      return g if hasattr(g, 'node') else None
+    if isinstance(f, ast.Name):
+      g = repo.func_by_dotted(repo.dotted(base.module, f) or '')
+      return g
+    return None
+
+  def simple(g):
+    body = [s for s in g.node.body if not (
+        isinstance(s, ast.Expr) and isinstance(s.value, ast.Constant))]
+    rets = [n for n in ast.walk(g.node) if isinstance(n, ast.Return)]
+    if len(rets) > 1 or (rets and (not body or rets[0] is not body[-1])):
+      return None
+    for n in ast.walk(g.node):
+      if isinstance(n, (ast.Yield, ast.YieldFrom, ast.Lambda, ast.Global,
+                        ast.Nonlocal)) or \
+              (isinstance(n, ast.FunctionDef) and n is not g.node):
+        return None
+    a = g.node.args
+    if a.vararg or a.kwarg or a.kwonlyargs:
+      return None
+    return body
+
+  def expand(call, target):
+    """statements replacing `target = call` (target may be None / 'return')"""
+    g = callee_of(call)
+    if g is None or g.node is base.node or call.keywords or \
+            any(isinstance(x, ast.Starred) for x in call.args):
+      return None
+    body = simple(g)
+    if body is None:
+      return None
+    params = g.params()
+    if g.cls is not None and not g.is_static:
+      params = params[1:]
+    if len(params) != len(call.args):
+      return None
+    counter[0] += 1
+    sfx = '_%s%d' % (g.name.strip('_'), counter[0])
+    mapping = {}
+    pre = []
+    stored = set(n.id for n in ast.walk(g.node) if isinstance(n, ast.Name)
+                 and isinstance(n.ctx, ast.Store))
+    for p, a in zip(params, call.args):
+      if isinstance(a, ast.Name) and p not in stored:
+        mapping[p] = a.id
+      else:
+        mapping[p] = p + sfx
+        asg = ast.Assign(targets=[ast.Name(id=p + sfx, ctx=ast.Store())],
+                         value=copy.deepcopy(a))
+        pre.append(ast.copy_location(asg, call))
+    for nm in stored:
+      if nm not in mapping:
+        mapping[nm] = nm + sfx
+    out = list(pre)
+    for s in body:
+      s2 = rename_names(s, mapping)
+      if isinstance(s2, ast.Return):
+        if s2.value is None:
+          continue
+        if target == 'return':
+          out.append(s2)
+        elif target is None:
+          out.append(ast.copy_location(ast.Expr(value=s2.value), s2))
+        else:
+          out.append(ast.copy_location(
+              ast.Assign(targets=[copy.deepcopy(target)], value=s2.value),
+              s2))
+      else:
+        out.append(s2)
+    for o in out:
+      ast.fix_missing_locations(o)
+    return out
+
+  class I(ast.NodeTransformer):
+    def block(self, body):
+      res = []
+      for s in body:
+        s = self.visit(s)
+        rep_ = None
+        if isinstance(s, ast.Assign) and len(s.targets) == 1 and \
+                isinstance(s.value, ast.Call):
+          rep_ = expand(s.value, s.targets[0])
+        elif isinstance(s, ast.Expr) and isinstance(s.value, ast.Call):
+          rep_ = expand(s.value, None)
+        elif isinstance(s, ast.Return) and isinstance(s.value, ast.Call):
+          rep_ = expand(s.value, 'return')
+        res.extend(rep_ if rep_ is not None else [s])
+      return res
+
+    def generic_visit(self, node):
+      for fld in ('body', 'orelse', 'finalbody'):
+        b = getattr(node, fld, None)
+        if isinstance(b, list) and b and isinstance(b[0], ast.stmt):
+          setattr(node, fld, self.block(b))
+      for h in getattr(node, 'handlers', []):
+        h.body = self.block(h.body)
+      return node
+  node = copy.deepcopy(func.node)
+  I().visit(node)
+  out = _clone_func(func, node)
+  if counter[0]:
+    return inline_helpers(repo, out, depth - 1)
+  return out
+
+
+def flag_states(body, name, entry):
+  """Forward flow of a boolean flag through structured statements.
+  States are 'stale' (value from before `body`), 'T', 'F', '?' (assigned
+  something else).  Returns (states at the normal end, states at `break`,
+  states at `continue`, {id(node): states reaching that node}).  Loops run
+  zero or more times; `else` runs when the loop ends without break."""
+  reach = {}
+
+  def assign_state(s):
+    tg = s.targets if isinstance(s, ast.Assign) else [s.target]
+    for t in tg:
+      for x in ast.walk(t):
+        if isinstance(x, ast.Name) and x.id == name:
+          v = getattr(s, 'value', None)
+          if isinstance(s, ast.Assign) and isinstance(v, ast.Constant) and \
+                  isinstance(v.value, bool):
+            return 'T' if v.value else 'F'
+          return '?'
+    return None
+
+  def flow(stmts, st):
+    brk, cont = set(), set()
+    cur = set(st)
+    for s in stmts:
+      reach[id(s)] = set(cur) | reach.get(id(s), set())
+      if not cur:
+        break
+      if isinstance(s, (ast.Assign, ast.AugAssign, ast.AnnAssign)):
+        a = assign_state(s)
+        if a is not None:
+          cur = {a}
+      elif isinstance(s, ast.If):
+        n1, b1, c1 = flow(s.body, cur)
+        n2, b2, c2 = flow(s.orelse, cur)
+        cur = n1 | n2
+        brk |= b1 | b2
+        cont |= c1 | c2
+      elif isinstance(s, (ast.For, ast.While)):
+        head = set(cur)
+        lb = set()
+        for _ in range(4):
+          n1, b1, c1 = flow(s.body, head)
+          lb |= b1
+          new = head | n1 | c1
+          if new == head:
+            break
+          head = new
+        ne, be, ce = flow(s.orelse, head) if s.orelse else (head, set(),
+                                                             set())
+        cur = ne | lb
+        brk |= be
+        cont |= ce
+      elif isinstance(s, ast.Break):
+        brk |= cur
+        cur = set()
+      elif isinstance(s, ast.Continue):
+        cont |= cur
+        cur = set()
+      elif isinstance(s, (ast.Return, ast.Raise)):
+        cur = set()
+      elif isinstance(s, ast.With):
+        n1, b1, c1 = flow(s.body, cur)
+        cur = n1
+        brk |= b1
+        cont |= c1
+      elif isinstance(s, ast.Try):
+        n1, b1, c1 = flow(s.body, cur)
+        outs = set(n1)
+        for h in s.handlers:
+          nh, bh, ch = flow(h.body, cur | n1)
+          outs |= nh
+          brk |= bh
+          cont |= ch
+        n3, b3, c3 = flow(s.orelse, n1) if s.orelse else (set(), set(), set())
+        if s.orelse:
+          outs = (outs - n1) | n3
+        cur = outs
+        brk |= b1 | b3
+        cont |= c1 | c3
+    return cur, brk, cont
+  n, b, c = flow(body, set(entry))
+  return n, b, c, reach
